@@ -1,6 +1,7 @@
 import Lean.Data.Json
 import Pypika.RenderTerm
 import Pypika.Param
+import Pypika.Ident
 /-!
 # JSON → model values (driver side only; no theorem depends on this file)
 -/
@@ -231,6 +232,16 @@ mutual
     pure (.mk (← dQuery (fld j "base")) ops (← (← fArr j "orderbys").mapM dOrdItem)
       (← fOptNat j "limit") (← fOptNat j "offset") (← fOptStr j "alias"))
 end
+
+/-- schema chain given outermost first -/
+def schOfChain : List Str → Option Sch
+  | [] => none
+  | n :: rest => some (rest.foldl (fun acc x => Sch.mk x (some acc)) (Sch.mk n none))
+
+def dTbl (j : Json) : D Tbl := do
+  let chain ← (← fArr j "schema").mapM jStr
+  pure { name := ← fStr j "name", schema := schOfChain chain, alias := ← fOptStr j "alias",
+         for_ := ← fOptStr j "for", forPortion := ← fOptStr j "for_portion" }
 
 def dStyle (s : String) : D ParamStyle :=
   match s with
